@@ -409,6 +409,36 @@ func (e *Engine) solveAll(runs []*FnRun, keep func(*Obligation) bool) {
 	}
 	close(ch)
 	wg.Wait()
+	// second chance for undecided obligations: the first pass runs 3 solvers x 16 workers on the machine, so a
+	// borderline query can time out for lack of CPU alone; a few of them are re-run with little competition and
+	// three times the budget. (A definite answer is never re-examined.)
+	var again []job
+	for _, j := range jobs {
+		if j.o.Kind != "canary" && j.o.Result != nil && (j.o.Result.Status == "unknown" || j.o.Result.Status == "timeout") && (e.retryOnly == nil || e.retryOnly(j.o)) {
+			again = append(again, j)
+		}
+	}
+	if len(again) == 0 || len(again) > 24 || os.Getenv("GOVC_NO_RETRY") == "1" {
+		return
+	}
+	ch2 := make(chan job)
+	var wg2 sync.WaitGroup
+	for i := 0; i < 4; i++ {
+		wg2.Add(1)
+		go func() {
+			defer wg2.Done()
+			for j := range ch2 {
+				res := runQuery(j.o.QueryText, e.opts.Timeout*3, false)
+				res.Retried = true
+				j.o.Result = &res
+			}
+		}()
+	}
+	for _, j := range again {
+		ch2 <- j
+	}
+	close(ch2)
+	wg2.Wait()
 }
 
 // ---- property selection ----
